@@ -7,7 +7,7 @@ namespace Typstyle
 open Pretty
 
 def _root_.Pretty.Tag.rigid : Tag → Bool
-  | .tok | .syn | .verbatim => true
+  | .tok | .syn | .verbatim | .prose | .lit | .plit => true
   | .soft | .comment => false
 
 /-- Non-blank characters of the atoms that are real tokens. -/
